@@ -132,6 +132,15 @@ def c10_faults(r, seed, tier, model_ok):
         oc.append(dict(text=f"{body} (ㅈㅈㄱ ㅎ) ㅅㄷㅎㄷ", trace=False)); orc.append(("V 63", fn))
         if FAULTS[fn][1] not in ("?",) and fn != "user":
             oc.append(dict(text=f"{body} (ㄴ ㄱㅇㄱ ㅎㄴ ㅎ) ㅅㄷㅎㄷ", trace=False)); orc.append(("V " + FAULTS[fn][1].split(",")[1], fn))
+    # a THROWN user exception whose contents hold a delayed failing part (inside a list / dictionary / nested exception): throwing does not look
+    # inside, so the handler receives the user's exception - its first element 7 - not the failure of the part nobody asked for
+    for fn in FAULTS:
+        F = FAULTS[fn][0]
+        for payload, pk in ((call("ㅁㄹ", [F]), "list"), (call("ㅅㅈ", [E(1), F]), "dict"), (call("ㄷㅂ", [call("ㅁㄹ", [F])]), "exception"), (call("ㅁㄹ", [E(3), call("ㅁㄹ", [F, E(4)])]), "nested-list")):
+            thrown = f"({E(7)} {payload} ㄷㅂㅎㄷ ㄷㅈㅎㄴ)"
+            for t, w in ((f"{thrown} (ㄱ ㄱㅇㄱ ㅎㄴ ㅎ) ㅅㄷㅎㄷ", "V 7"), (f"{thrown} ((ㄱㅇㄱ ㅈㄷㅎㄴ) ㅎ) ㅅㄷㅎㄷ", "V 2"), (f"({thrown} ((ㄱㅇㄱ ㄷㅈㅎㄴ) ㅎ) ㅅㄷㅎㄷ) (ㄱ ㄱㅇㄱ ㅎㄴ ㅎ) ㅅㄷㅎㄷ", "V 7"),
+                         (f"(ㄱ ㄱㅅㅎㄴ) ({thrown} ㅎ) ㄱㄹㅎㄷ (ㄱㅇㄱ ㄱㅅㅎㄴ ㅎ) ((ㄱ ㄱㅇㄱ ㅎㄴ ㄱㅅㅎㄴ) ㅎ) ㄱㄹㅎㄹ", "V 7")):
+                oc.append(dict(text=t, trace=False)); orc.append((w, f"thrown-with-lazy-{pk}-{fn}"))
     oa = impl_run(oc)
     bad = [dict(program=c["text"], impl=decode_v(o.split("\t")[0])[:200], model=f"{w[0]} (the handler gets the {w[1]} failure raised inside the data the try must fully evaluate)", which=["try-delivers"])
            for c, o, w in zip(oc, oa, orc) if decode_v(o.split("\t")[0]) != w[0]]
